@@ -449,10 +449,22 @@ def rule_r5(p, res):
         raise AnalysisError("C12.R5: only %d covariance stores found in the create routines (floor 4)" % stores)
 
 
+def rule_r6(p, res):
+    r = res.rule("C12.R6", "distance queries convert all the samples they are given")
+    for cname, mname in (("GMRFVectorModel", "mahalanobis_distance"),):
+        f = p.own_method(cname, mname)
+        r.instance(f)
+        ks = [k for k in calls_in(f.node) if isinstance(k.func, ast.Attribute) and k.func.attr == "_data_to_matrix"]
+        need(ks, "C12.R6: %s.%s no longer converts its samples with _data_to_matrix" % (cname, mname))
+        for k in ks:
+            r.check(len(k.args) == 2 and norm(k.args[0]) == f.params[1] and norm(k.args[1]) == "None", f, k,
+                    "%s must convert *all* query samples (`_data_to_matrix(samples, None)`), found `%s`: a count taken from the model truncates a batch of queries" % (mname, norm(k)))
+
+
 # rules of sibling properties over code paths this property's statement also quantifies over (DESIGN.md section 3, shared rules)
 ALSO = ['C11.R2', 'C11.R3', 'C11.R4']
 
-RULES = [rule_r1, rule_r2, rule_r3, rule_r4, rule_r5]
+RULES = [rule_r1, rule_r2, rule_r3, rule_r4, rule_r5, rule_r6]
 
 WITNESSES = [
     Witness("C12.W1", "menpo/model/gmrf.py", "_create_dense_precision", "precision[v1_from:v1_to, v1_from:v1_to] += covmat[:n_features_per_vertex, :n_features_per_vertex]",
@@ -480,4 +492,9 @@ WITNESSES += [
             rule="C12.R5", construct="_create_dense_precision", note="seeded change R3-C12-C"),
     Witness("C12.W12", "menpo/model/gmrf.py", "_create_sparse_diagonal_precision", "print_progress(range(graph.n_vertices), n_items=graph.n_vertices,", "print_progress(range(graph.n_edges), n_items=graph.n_edges,",
             rule="C12.R5", construct="_create_sparse_diagonal_precision", note="seeded change R3-C12-A"),
+]
+
+WITNESSES += [
+    Witness("C12.W13", "menpo/model/gmrf.py", "GMRFVectorModel.mahalanobis_distance", "self._data_to_matrix(samples, None)", "self._data_to_matrix(samples, self.n_samples)", rule="C12.R6", construct="mahalanobis_distance",
+            note="seeded change R5-C12-B"),
 ]
